@@ -191,6 +191,23 @@ func (tr *Tr) expr(e ast.Expr, env *Env, k econt) string {
 		return tr.expr(e.X, env, func(e1 *Env, l Val) string {
 			return tr.expr(e.Index, e1, func(e2 *Env, i Val) string {
 				l, i = tr.use(l, e.X), tr.use(i, e.Index)
+				if l.typ.K == KMap {
+					// p := m[k]: nil when k is absent (or present with a nil value: the
+					// representation holds exactly the keys with a non-nil value).  The
+					// continuation is translated twice: with a pointer known to be non-nil
+					// (its pointee is the value found) and with a pointer known to be nil
+					// (comparable with nil, not dereferenceable).
+					kv := tr.coerce(i, l.typ.Key, e.Index)
+					tr.needDEval = true
+					binder := tr.fresh("p")
+					some := k(e2, Val{term: binder, typ: l.typ.Elem, nilState: 2})
+					none := k(e2, Val{term: "?", typ: l.typ.Elem, nilState: 1, poison: "nil pointer read out of a map (absent key)"})
+					return fmt.Sprintf("match dlookup %s %s with\n| Some %s =>\n%s\n| None =>\n%s\nend", paren(l.term), paren(kv.term),
+						binder, ind(ind(some)), ind(ind(none)))
+				}
+				if l.typ.K == KStrSet {
+					tr.fail(e, "single-value read of a map[string]struct{} (only _, ok := m[k])")
+				}
 				if l.typ.K == KPtr && l.typ.Elem.K == KArray {
 					l.typ = l.typ.Elem
 				}
@@ -400,6 +417,35 @@ func exprStr(e ast.Expr) string {
 		return "(" + exprStr(x.X) + ")"
 	}
 	return fmt.Sprintf("%T", e)
+}
+
+// make(map[string]struct{}) / make(map[string]struct{}, len(x)): the empty set of strings.
+// The size hint only reserves space; it is accepted when it is a len(...) (never negative,
+// total) and is not represented.  Any other map type, or any other hint, is refused.
+func (tr *Tr) makeMap(call *ast.CallExpr, env *Env, k econt) string {
+	t := tr.resolveType(call.Args[0])
+	if t.K != KStrSet {
+		tr.fail(call, "make of type %v (only make(map[string]struct{}[, len(x)]))", t)
+	}
+	tr.needGoMap = true
+	switch len(call.Args) {
+	case 1:
+		return k(env, Val{term: "strset_empty", typ: t})
+	case 2:
+		hint, ok := unparen(call.Args[1]).(*ast.CallExpr)
+		if !ok {
+			tr.fail(call.Args[1], "size hint of make(map) that is not len(...)")
+		}
+		if id, ok := hint.Fun.(*ast.Ident); !ok || id.Name != "len" || env.scope["len"] != nil {
+			tr.fail(call.Args[1], "size hint of make(map) that is not len(...)")
+		}
+		return tr.expr(call.Args[1], env, func(e *Env, n Val) string {
+			tr.use(n, call.Args[1])
+			return k(e, Val{term: "strset_empty", typ: t})
+		})
+	}
+	tr.fail(call, "make(map) with %d arguments", len(call.Args))
+	return ""
 }
 
 // named error variables of the package and their classes
@@ -650,6 +696,19 @@ func (tr *Tr) compare(at ast.Node, op token.Token, a, b Val, env *Env, k econt) 
 		}
 		tr.fail(at, "ordering of errors")
 	}
+	if (a.typ.K == KPtr && b.typ.K == KUntypedNil || b.typ.K == KPtr && a.typ.K == KUntypedNil) && (op == token.EQL || op == token.NEQ) {
+		pv := a
+		if a.typ.K == KUntypedNil {
+			pv = b
+		}
+		switch pv.nilState {
+		case 1:
+			return k(env, Val{term: strconv.FormatBool(op == token.EQL), typ: tBool})
+		case 2:
+			return k(env, Val{term: strconv.FormatBool(op == token.NEQ), typ: tBool})
+		}
+		tr.fail(at, "comparison with nil of a pointer that was not just read out of a map")
+	}
 	a, b = tr.use(a, at), tr.use(b, at)
 	a, b = tr.unify(at, a, b)
 	if a.typ.K == KUntypedInt {
@@ -874,6 +933,11 @@ func (tr *Tr) builtinOrConv(id *ast.Ident, call *ast.CallExpr, env *Env, k econt
 			return k(e, Val{term: paren(s.term) + " ++ [" + strings.Join(elts, "; ") + "]", typ: s.typ})
 		}), true
 	case "make":
+		if len(call.Args) >= 1 {
+			if _, isMap := unparen(call.Args[0]).(*ast.MapType); isMap {
+				return tr.makeMap(call, env, k), true
+			}
+		}
 		if len(call.Args) != 2 {
 			tr.fail(call, "make with %d arguments (only make(T, len))", len(call.Args))
 		}
@@ -1432,6 +1496,9 @@ func (tr *Tr) emitCall(call *ast.CallExpr, fi *FuncInfo, recv *Val, argExprs []a
 			}
 			terms = append(terms, paren(pv.term))
 			continue
+		}
+		if fi.mutates[i] {
+			tr.fail(nodes[i], "%s writes its map parameter: a call of such a function is not represented", fi.key)
 		}
 		if v.typ.K == KPtr && sameType(v.typ.Elem, p.typ) {
 			nv := tr.use(v, nodes[i])
